@@ -82,5 +82,8 @@ static inline uint32_t verif_uadd_sat32(uint32_t a, uint32_t b) { return a + b <
   _Bool __at_cas##W(uint##W##_t *p, uint##W##_t *expected, uint##W##_t desired, int so, int fo, int weak);
 AT_DECL(8) AT_DECL(16) AT_DECL(32) AT_DECL(64)
 void __at_fence(int order);
+/* atomics on pointer cells (std::atomic<T*>): pointer-typed so that provenance survives */
+void *__at_loadp(void **p, int order); void __at_storep(void **p, void *v, int order); void *__at_xchgp(void **p, void *v, int order);
+_Bool __at_casp(void **p, void **expected, void *desired, int so, int fo, int weak);
 double __fp_mul_hook(double a, double b);
 #endif
